@@ -25,7 +25,7 @@ func mixedOptsImpl(thorough bool) GenOpts {
 		MaxNodes: 4, MaxWorkloads: 8, MaxPodsPerWL: 4,
 		Fractions: true, MIG: true, Gangs: true, SubGroups: true, Running: true, Terminating: true,
 		Hierarchy: 2, Limits: true, Priorities: true, NonPreemptible: true, TightPods: true,
-		Faults: true, BindFailures: true, Completions: true, MinCycles: 2, MaxCycles: 5,
+		Faults: true, BindFailures: true, Completions: true, MinCycles: 2, MaxCycles: 5, BestEffort: true,
 	}
 	if thorough {
 		o.MaxNodes, o.MaxWorkloads, o.MaxCycles, o.Hierarchy = 6, 12, 8, 3
